@@ -538,6 +538,7 @@ func runC01(c *Ctx) {
 	// "not leased": the lease is asked of the output being judged
 	c.Borrow(runC12, "C12-R1", "C01-R1", func(k string) bool { return strings.HasPrefix(k, "lease-test-names-the-judged-output") })
 	c.Borrow(runC12, "C12-R4", "C01-R1", func(k string) bool { return strings.HasPrefix(k, "lease-release-names-the-spent-outpoint") })
+	c.Borrow(runC12, "C12-R4", "C01-R1", func(k string) bool { return strings.HasPrefix(k, "decoded-outpoint-has-both-halves") })
 	c.Borrow(runC12, "C12-R5", "C01-R1", func(k string) bool {
 		return strings.HasPrefix(k, "lease-released-only-by-owner-expiry-or-confirmed-spend") || strings.HasPrefix(k, "lease-bucket-writer")
 	})
